@@ -281,10 +281,17 @@ func c01Seq(c *Ctx) {
 		}
 		var seen []string
 		var mu sync.Mutex
+		editURL := i%3 == 0
 		h := http.HandlerFunc(func(w http.ResponseWriter, req *http.Request) {
 			mu.Lock()
 			seen = append(seen, urlKey(req.URL))
 			mu.Unlock()
+			if editURL {
+				// whatever sits behind the balancer may edit the request it was handed, URL included
+				req.URL.Path = "/edited" + req.URL.Path
+				req.URL.RawQuery = "edited=1"
+				req.URL.Host = "edited." + req.URL.Host
+			}
 		})
 		stickyMode := i%5 == 4
 		var lbOpts []roundrobin.LBOption
@@ -304,11 +311,40 @@ func c01Seq(c *Ctx) {
 		c.Eval()
 		if ref.W == 0 {
 			c.Count("all_zero_pools", 1)
-			for k := 0; k < 2*len(urls)+3; k++ {
-				if u, err := rr.NextServer(); err == nil {
-					c.Violation("allzero", sfmt("all-zero pool %v: selection %d returned zero-weight server %v", ws, k, u), map[string]any{"weights": ws})
-					break
+			// selections on the drained pool fail; afterwards the pool is given a positive weight again and must serve
+			// (run under a watchdog: a selection or pool change that never returns is a violation, not a stuck check)
+			type outcome struct{ key, msg string }
+			done := make(chan outcome, 1)
+			go func() {
+				for k := 0; k < 2*len(urls)+3; k++ {
+					if u, err := rr.NextServer(); err == nil {
+						done <- outcome{"allzero", sfmt("all-zero pool %v: selection %d returned zero-weight server %v", ws, k, u)}
+						return
+					}
 				}
+				back := r.IntN(len(urls))
+				if err := rr.UpsertServer(urls[back], roundrobin.Weight(1+r.IntN(5))); err != nil {
+					done <- outcome{"allzero/restore", "re-weighting a server of a drained pool failed: " + err.Error()}
+					return
+				}
+				for k := 0; k < 5; k++ {
+					u, err := rr.NextServer()
+					if err != nil || urlKey(u) != urlKey(urls[back]) {
+						done <- outcome{"allzero/restore", sfmt("drained pool %v, then server %d re-weighted to a positive weight: selection %d returned %v, %v", ws, back, k, u, err)}
+						return
+					}
+				}
+				done <- outcome{}
+			}()
+			select {
+			case o := <-done:
+				if o.key != "" {
+					c.Violation(o.key, o.msg, map[string]any{"weights": ws, "history": hist})
+				} else {
+					c.Count("drained_pools_restored", 1)
+				}
+			case <-time.After(20 * time.Second):
+				c.Violation("allzero/hang", sfmt("all-zero pool %v (history %v): a selection or the following re-weight did not return within 20s: the balancer is blocked", ws, hist), map[string]any{"weights": ws, "history": hist})
 			}
 			return
 		}
